@@ -7,6 +7,7 @@ mod mk;
 mod runner;
 mod scen_adv;
 mod scen_dhcp;
+mod scen_6lo;
 mod scen_dgram;
 mod scen_dns;
 mod scen_inject;
@@ -64,6 +65,10 @@ fn injector(t: &mut Tape, p: Props, thorough: bool, trace: bool) -> Outcome {
 
 fn dns_scn(t: &mut Tape, p: Props, thorough: bool, trace: bool) -> Outcome {
     scen_dns::run(t, p, thorough, trace)
+}
+
+fn sixlo_scn(t: &mut Tape, p: Props, thorough: bool, trace: bool) -> Outcome {
+    scen_6lo::run(t, p, thorough, trace)
 }
 
 fn dhcp_scn(t: &mut Tape, p: Props, thorough: bool, trace: bool) -> Outcome {
@@ -125,6 +130,7 @@ fn defs() -> &'static [CheckDef] {
                     Scen { name: "tcp-pair-safety", weight: 1, run: tcp_safety },
                     Scen { name: "dhcp-client", weight: 1, run: dhcp_scn },
                     Scen { name: "dns-resolver", weight: 1, run: dns_scn },
+                    Scen { name: "6lowpan-pair", weight: 2, run: sixlo_scn },
                 ],
                 rule: "every call into the library runs under catch_unwind and a watchdog; one run = one seeded scenario execution (adversarial frame sequences, scripted TCP peers, two-node faulty links); non-trivial per scenario rule; distinct = event-log hash",
                 assumptions: vec!["build profile: release with debug-assertions and overflow-checks (what a development build of a user sees)"],
@@ -211,6 +217,21 @@ fn defs() -> &'static [CheckDef] {
                 thorough_s: 600.0,
             },
             CheckDef {
+                id: "C20",
+                props: Props::of(&["C20"]),
+                scens: vec![Scen { name: "6lowpan-pair", weight: 1, run: sixlo_scn }],
+                rule: "one run = two real interfaces on IEEE 802.15.4 (extended or short hardware addresses; link-local, context-prefix and arbitrary global addresses; shared address context or none) exchanging UDP (port classes inline / 8-bit / 4-bit on either side, hop limits 1/64/255/other, unicast, all-nodes, solicited-node and joined-group destinations), ICMPv6 echo, MLD reports and a TCP stream, payload 0..1700 octets, several sends back to back, tx ring of 1..5 frames per poll; the link is loss-free and in order (half of the runs) or reorders/duplicates (and drops) frames until faults stop; every emitted frame is decoded, reassembled and decompressed by the harness's own RFC 4944/6282 codec; non-trivial = >= 1 fragmented datagram and >= 2 application deliveries; distinct = event-log hash",
+                assumptions: vec![
+                    "the independent 6LoWPAN codec (written from RFC 4944 / RFC 6282) is trusted",
+                    "compared with the application-level model of what was sent rather than with a second run over the raw-IP medium (same verdict, one run)",
+                    "a reply that needs the fragmenter while it is busy is legitimately dropped, so echo replies are only required when nothing else competes for it",
+                ],
+                real: REAL,
+                stub: STUB,
+                quick_s: 20.0,
+                thorough_s: 600.0,
+            },
+            CheckDef {
                 id: "C19",
                 props: Props::of(&["C19"]),
                 scens: vec![Scen { name: "dns-resolver", weight: 1, run: dns_scn }],
@@ -234,6 +255,7 @@ fn defs() -> &'static [CheckDef] {
                     Scen { name: "dgram-pair-frag", weight: 2, run: dgram_frag },
                     Scen { name: "dns-resolver", weight: 1, run: dns_scn },
                     Scen { name: "dhcp-client", weight: 1, run: dhcp_scn },
+                    Scen { name: "6lowpan-pair", weight: 2, run: sixlo_scn },
                     Scen { name: "adversary-any-medium", weight: 3, run: adv_any },
                     Scen { name: "injector", weight: 2, run: injector },
                 ],
@@ -257,6 +279,7 @@ fn defs() -> &'static [CheckDef] {
                     Scen { name: "dgram-pair-frag", weight: 2, run: dgram_frag },
                     Scen { name: "dns-resolver", weight: 1, run: dns_scn },
                     Scen { name: "dhcp-client", weight: 1, run: dhcp_scn },
+                    Scen { name: "6lowpan-pair", weight: 2, run: sixlo_scn },
                     Scen { name: "adversary-any-medium", weight: 3, run: adv_any },
                     Scen { name: "injector", weight: 2, run: injector },
                 ],
